@@ -26,6 +26,7 @@ LEVEL = "exploration"
 QUICK_JOBS = 480
 THOROUGH_JOBS = 8000
 WALL_CAP = {"quick": 240.0, "thorough": 3300.0}
+STATE_MEASURE = "distinct (pool size, task count, switch probability, set of targets in the pool, mode: sequential / switch inside a write / hash-seed processes) combinations; interleavings are counted separately as distinct recorded scheduler decision sequences"
 
 RULE = ("one case = (pool of 1-3 related generated models, 1-3 tasks of up to 25 operations each: build, write, evaluate "
         "energy/force/embedding/density at grid and off-grid points, write with an injected evaluation failure, read .workbook, "
@@ -711,6 +712,9 @@ def run_job(job):
         st["extra"]["task_switches"] = st["extra"].get("task_switches", 0) + res.get("switches", 0)
         st["extra"]["hashseed_processes"] = st["extra"].get("hashseed_processes", 0) + extra.get("hashseed_processes", 0)
         _probes(sc, refs, res, extra, bump)
+        bump("state:%dmodels|%dtasks|sw%s|%s|%s" % (len(sc["models"]), len(sc["tasks"]), sc["switch_prob"],
+                                                  "+".join(sorted(set(m["meta"]["target"] for m in sc["models"]))),
+                                                  "hashseeds" if sc.get("hashseeds") else ("switch-in-write" if res.get("switches_in_write") else "sequential")))
         if nontrivial(sc, res, extra):
             st["keys"].append(short({"m": [m["sections"] for m in sc["models"]], "t": sc["tasks"], "s": res.get("schedule"),
                                      "h": sc.get("hashseeds")}, 16))
